@@ -20,6 +20,7 @@
 #include <unifex/manual_lifetime_union.hpp>
 
 #include <unifex/detail/completion_forwarder.hpp>
+#include <unifex/detail/verif_hooks.hpp>
 #include <unifex/detail/prologue.hpp>
 
 #include <mutex>
@@ -365,6 +366,7 @@ void _opaque_safe_cb<Fallback, Args...>::callback(void* o, Args... args) {
 
   auto ptr{from_opaque(o)};
 
+  UNIFEX_VERIF_YIELD("race.b_cb");
   if (ptr &&
       ptr.template op<Op>()->template callback_impl<nothrow_body, Event>(
           std::forward<Args>(args)...)) {
@@ -399,6 +401,7 @@ public:
 
   void operator()(Args... args) const noexcept {
     if (auto ptr = this->get()) {
+      UNIFEX_VERIF_YIELD("race.b_cb");
       if (ptr.template op<Op>()->template callback_impl<nothrow_body, Event>(
               std::forward<Args>(args)...)) {
         return;
@@ -546,6 +549,7 @@ struct _stop_callback {
       }
     }
 
+    UNIFEX_VERIF_YIELD("race.b_scmp");
     if (completed) {
       op_.complete();
     }
@@ -761,6 +765,7 @@ private:
       }
     }
 
+    UNIFEX_VERIF_YIELD("race.b_stcmp");
     if (completed) {
       self.complete();
     }
@@ -774,6 +779,7 @@ private:
           get_stop_token(receiver_.get_receiver()), _stop_callback<_op>{*this});
     }
 
+    UNIFEX_VERIF_YIELD("race.b_start");
     auto guard{lock()};
     state_.set_started();
 
@@ -816,6 +822,7 @@ private:
       }
     }
 
+    UNIFEX_VERIF_YIELD("race.b_cmp");
     if (completed) {
       complete();
     }
